@@ -1,5 +1,6 @@
 SPECIFICATION Spec
-CONSTANT MaxLinks = 3
+CONSTANTS
+  MaxLinks = 3
 INVARIANT GlueIsThrowPath
 CONSTRAINT Emit
 CHECK_DEADLOCK FALSE
